@@ -37,7 +37,11 @@ pub struct Sym {
     pub lc: u8,
     pub step_ms: i32,
     pub ts: Ts,
+    /// control request (the statement's calculated time is the reception time)
     pub ctrl: bool,
+    /// message type byte of a message that is no control request: 0 = verbose log info, otherwise the byte itself
+    /// (control response 0x26, control messages with the reserved type-info values 0 and 7: 0x06, 0x76)
+    pub other: u8,
 }
 impl Sym {
     pub fn name(&self) -> String {
@@ -45,7 +49,11 @@ impl Sym {
             Ts::Abs(v) => ('a', v),
             Ts::Delay(v) => ('d', v),
         };
-        format!("{}{:+}ms:{}{}:{}", LC_NAMES[self.lc as usize], self.step_ms, k, v, if self.ctrl { 'c' } else { 'n' })
+        format!("{}{:+}ms:{}{}:{}", LC_NAMES[self.lc as usize], self.step_ms, k, v, match (self.ctrl, self.other) {
+            (true, _) => "c".to_string(),
+            (false, 0) => "n".to_string(),
+            (false, b) => format!("t{b:02x}"),
+        })
     }
     pub fn parse(s: &str) -> Option<Sym> {
         let lc = LC_NAMES.iter().position(|n| s.starts_with(n))? as u8;
@@ -58,7 +66,8 @@ impl Sym {
             b'd' => Ts::Delay(v),
             _ => return None,
         };
-        Some(Sym { lc, step_ms: step.parse().ok()?, ts, ctrl: kind == "c" })
+        let other = kind.strip_prefix('t').and_then(|h| u8::from_str_radix(h, 16).ok()).unwrap_or(0);
+        Some(Sym { lc, step_ms: step.parse().ok()?, ts, ctrl: kind == "c", other })
     }
 }
 
@@ -233,7 +242,13 @@ fn gen_stream(t: &Table, base: u64, syms: &[Sym]) -> Vec<DltMessage> {
             Ts::Delay(ms) => now.saturating_sub(start.unwrap_or(0)).saturating_sub(ms as u64 * MS),
         };
         let ts_dms = (ts_us / 100).min(u32::MAX as u64) as u32;
-        let kind = if sy.ctrl { CTRL_REQUEST_NV } else { MTIN_LOG_INFO_V };
+        let kind = if sy.ctrl {
+            CTRL_REQUEST_NV
+        } else if sy.other != 0 {
+            sy.other
+        } else {
+            MTIN_LOG_INFO_V
+        };
         let mut m = mk_msg(i as u32, &ecu_of(sy.lc), now, ts_dms, true, Some((kind, 0, *b"APID", *b"CTID")), vec![i as u8]);
         m.lifecycle = id;
         out.push(m);
@@ -491,7 +506,7 @@ fn alphabet(lcs: &[u8], steps: &[i32], tss: &[Ts], kinds: &[bool]) -> Vec<Sym> {
                         (Ts::Delay(d), true) => Ts::Abs(d),
                         (t, _) => t,
                     };
-                    let s = Sym { lc: *lc, step_ms: *st, ts, ctrl: *k };
+                    let s = Sym { lc: *lc, step_ms: *st, ts, ctrl: *k, other: 0 };
                     if !v.contains(&s) {
                         v.push(s);
                     }
@@ -676,6 +691,15 @@ impl Prop for C10 {
             // control requests among normal messages
             f("control_requests", Std, BASE, alphabet(&[0, 3], &[0, 1000, -1000], &late2, &[false, true]),
               "{A1,B1} x steps {0,1s,-1s} x late by {0,2s} x {normal,ctrl}", (1, 4), W3, d3),
+            // control messages that are no requests (response, reserved type-info values) are ordered like normal messages
+            f("control_non_requests", Std, BASE, {
+                let mut a = alphabet(&[0, 3], &[0, 1000], &late2, &[false, true]);
+                for b in [0x26u8, 0x06, 0x76] {
+                    let extra: Vec<Sym> = a.iter().filter(|s| !s.ctrl && s.other == 0).map(|s| Sym { other: b, ..*s }).collect();
+                    a.extend(extra);
+                }
+                a
+            }, "{A1,B1} x steps {0,1s} x late by {0,2s} x {normal, ctrl request, ctrl response, ctrl with reserved type 0 / 7}", (1, 3), W3, d3),
             // absolute timestamp grid over three lifecycles
             f("absolute_timestamps", Std, BASE, alphabet(&[0, 1, 3], &[0, 1000, 5000, -1000], &abs4, &[false]),
               "{A1,A2,B1} x steps {0,1s,5s,-1s} x abs ts {0,1s,2s,30s} x normal", (1, 3), W3, d3),
